@@ -110,6 +110,22 @@ setcol!(SU8, u8, Vec<u8>);
 /// byte strings that are prefixes / extensions of one another, empty, 0xFF /
 /// 0x00 heavy, multi-kilobyte
 fn bytes_pool(t: &mut Tape<'_>) -> Vec<u8> {
+    // keys whose scan bound needs a carry (`.. x FF` -> `.. x+1`), next to
+    // keys of the same length that sort just above that bound
+    if t.chance(64) {
+        return match t.idx(10) {
+            0 => vec![5, 0xFF],
+            1 => vec![6, 0x10],
+            2 => vec![6, 0xFE],
+            3 => vec![6],
+            4 => vec![0x41, 0xFF, 0xFF],
+            5 => vec![0x42, 0x00, 0x07],
+            6 => vec![0x42, 0xFF, 0xFE],
+            7 => vec![0xFE, 0xFF],
+            8 => vec![0xFF, 0x00],
+            _ => vec![5, 0xFE],
+        };
+    }
     match t.idx(14) {
         0 => vec![],
         1 => b"a".to_vec(),
